@@ -14,7 +14,8 @@ OPS = dict(DEFAULT=1, SIZED=2, EXTERNAL=3, FROMLIST=4, ALIGNED=5, COPYCON=6, MOV
 OPNAME = {v: k for k, v in OPS.items()}
 EXPRS = {0: 'a+b', 1: 'move(a)+b', 2: 'a+move(b)', 3: 'move(a)+move(b)', 4: 'a-b', 5: 'move(a)-b', 6: '-a', 7: '-move(a)', 8: 'a*c', 9: 'move(a)*c',
          10: 'c*a', 11: 'c*move(a)', 12: 'iCommutator(a,b)', 13: 'ACommutator(a,b)', 14: 'a.Evolve(b,c)', 15: 'a.Evolve(buf)', 16: 'ElementwiseProduct(a,b)',
-         17: 'ElementwiseProduct(move(a),b)', 18: 'ElementwiseProduct(a,move(b))', 19: 'ElementwiseProduct(move(a),move(b))', 20: 'ElementwiseOperation(user,a,b)'}
+         17: 'ElementwiseProduct(move(a),b)', 18: 'ElementwiseProduct(a,move(b))', 19: 'ElementwiseProduct(move(a),move(b))', 20: 'ElementwiseOperation(user,a,b)',
+         21: 'ElementwiseOperation(user,a,move(b))', 22: 'ElementwiseOperation(user,move(a),b)', 23: 'ElementwiseOperation(user,move(a),move(b))'}
 STMTS = {0: 'v = ', 1: 'v += ', 2: 'v -= ', 3: 'SU_vector v(', }
 CONSTRUCTS = {OPS['DEFAULT'], OPS['SIZED'], OPS['EXTERNAL'], OPS['FROMLIST'], OPS['ALIGNED'], OPS['COPYCON'], OPS['MOVECON'], OPS['FROMMATRIX'], OPS['FACTORY']}
 SLOT_SIZE = 32
